@@ -19,6 +19,8 @@ static int setf(void *dst, size_t cap, const char *hex) {
 }
 extern struct { char laststate[STATE_MAXSIZE]; } supla_esp_state_vars;
 
+void supla_esp_wifi_check_status(void *ptr);
+
 int main(void) {
   sdk_log_echo = 0;
   memset(&supla_esp_cfg, 0, sizeof(supla_esp_cfg));
@@ -42,6 +44,12 @@ int main(void) {
       else if (!strcmp(f, "state")) r = setf(supla_esp_state_vars.laststate, STATE_MAXSIZE - 1, h);
       else r = -1;
       if (r) sdk_out("BADOP");
+    } else if (!strcmp(op, "wifistatus") && ops_ntok == 2) { /* the real status poll writes the state text of the page */
+      sdk_wifi_status = atoi(ops_tok[1]);
+      supla_esp_wifi_check_status(NULL);
+      fprintf(stdout, "STATETEXT ");
+      if (strlen(supla_esp_state_vars.laststate)) sdk_out_hex(supla_esp_state_vars.laststate, strlen(supla_esp_state_vars.laststate)); else fputc('-', stdout);
+      fputc('\n', stdout);
     } else if (!strcmp(op, "page") && ops_ntok == 2) {
       char name[25] = "VERIF-DEVICE-NAME-123456";
       const char mac[6] = {0x5c, 0xcf, 0x7f, 1, 2, 3};
